@@ -126,6 +126,65 @@ def main():
         case["ok"] = bool(ok)
         dist("bilinear:" + prim)
         out["cases"].append(case)
+    # ---- the same configurations with complex operands (Gaussian integers): complex x complex, real x complex, complex x real ----
+    out["ccases"] = []
+
+    def gi(z):
+        return [[int(t.real), int(t.imag)] for t in onp.asarray(z, complex).ravel()]
+    for prim, tag, f, sa, sb in (table() if cfg.get("complex") else []):
+        if prim in ("vdot", "convolve", "correlate"):
+            continue                                   # vdot conjugates its first argument: not C-bilinear
+        na, nb = int(onp.prod(sa)) if sa else 1, int(onp.prod(sb)) if sb else 1
+        try:
+            y0 = onp.asarray(f(onp, onp.zeros(sa), onp.zeros(sb)))
+            S = []
+            for i in range(na):
+                ea = onp.zeros(na)
+                ea[i] = 1.0
+                for j in range(nb):
+                    eb = onp.zeros(nb)
+                    eb[j] = 1.0
+                    r = onp.asarray(f(onp, ea.reshape(sa), eb.reshape(sb))).ravel()
+                    for o in onp.nonzero(r)[0]:
+                        S.append([i, j, int(o), int(r[o])])
+        except Exception as ex:
+            continue
+        no = int(y0.size)
+        for realA, realB in ((False, False), (True, False), (False, True)):
+            def rnd(shape, real, lo=-3, hi=3):
+                n_ = int(onp.prod(shape)) if shape else 1
+                re_ = onp.array([float(rng.randint(lo, hi)) for _ in range(n_)])
+                im_ = onp.zeros(n_) if real else onp.array([float(rng.randint(lo, hi)) for _ in range(n_)])
+                a_ = (re_ if real else re_ + 1j * im_).reshape(shape)
+                return a_
+            A, B = rnd(sa, realA), rnd(sb, realB)
+            dA, dB = rnd(sa, realA, -2, 2), rnd(sb, realB, -2, 2)
+            y = onp.asarray(f(onp, A, B))
+            g = rnd(y.shape, False)
+            case = {"prim": prim, "tag": tag + (" [%s x %s]" % ("real" if realA else "complex", "real" if realB else "complex")),
+                    "na": na, "nb": nb, "no": no, "S": S, "A": gi(A), "B": gi(B), "g": gi(g), "dA": gi(dA), "dB": gi(dB), "val": gi(y),
+                    "realA": realA, "realB": realB}
+            As, Bs = (A if sa else A.reshape(())[()]), (B if sb else B.reshape(())[()])
+            gs = g if y.shape else g.reshape(())[()]
+            try:
+                vjA = onp.asarray(make_vjp(lambda z: f(anp, z, Bs))(As)[0](gs))
+                vjB = onp.asarray(make_vjp(lambda z: f(anp, As, z))(Bs)[0](gs))
+                ok = vjA.shape == tuple(sa) and vjB.shape == tuple(sb) and (onp.iscomplexobj(vjA) != realA) and (onp.iscomplexobj(vjB) != realB)
+                case["vjpA"], case["vjpB"] = gi(vjA), gi(vjB)
+            except LOUD as ex:
+                dist("complex: reverse-mode-raises (allowed)")
+                continue
+            for nm, fz, x0, d in (("jvpA", lambda z: f(anp, z, Bs), As, dA if sa else dA.reshape(())[()]),
+                                  ("jvpB", lambda z: f(anp, As, z), Bs, dB if sb else dB.reshape(())[()])):
+                try:
+                    jv = onp.asarray(make_jvp(fz)(x0)(d)[1])
+                    ok = ok and jv.shape == y.shape
+                    case[nm] = gi(jv)
+                except LOUD:
+                    case[nm] = None
+            case["ok"] = bool(ok)
+            dist("bilinear-complex:" + prim)
+            out["ccases"].append(case)
     print(json.dumps(out))
 
 
